@@ -19,6 +19,7 @@ package PKG
 import (
 	"encoding/json"
 	"fmt"
+	"math"
 	"os"
 	"reflect"
 	"time"
@@ -139,6 +140,12 @@ func vndIsNilPtr(x interface{}) bool {
 	return v.Kind() == reflect.Ptr && v.IsNil()
 }
 
+func vndFloat64bits(f float64) uint64 { return math.Float64bits(f) }
+func vndFloat32bits(f float32) uint32 { return math.Float32bits(f) }
+
+// vndConcretize returns x; the symbolic executor forks over the feasible values of x so that the result is concrete.
+func vndConcretize(x int) int { return x }
+
 // vndAdvanceTime lets time pass beyond every pending timeout (symbolically: every time.After channel is ready).
 func vndAdvanceTime() { time.Sleep(150 * time.Millisecond) }
 
@@ -243,6 +250,12 @@ func (x *Exec) vnd(name string, args []Value) Value {
 		return nil
 	case "vndKnown":
 		return c.BoolC(x.openKnown[strArg(args[0])])
+	case "vndFloat64bits":
+		return stubFloat64bits(x, nil, args, nil)
+	case "vndFloat32bits":
+		return args[0]
+	case "vndConcretize":
+		return x.i64(int(x.concretize(args[0].(*term.Term), "vndConcretize")))
 	case "vndAdvanceTime":
 		for _, ch := range x.timerChans {
 			ch.Ready = c.True()
